@@ -141,7 +141,7 @@ if not run.violations:
 exhaustive = not counts.get('deadline')
 run.assumptions += ['descriptor grammar, key alphabet and bounds as listed in the rule; musig(), hash-preimage miniscript fragments and unspendable() keys are not in the grammar',
                     'bech32 substitutions use the 31 other data characters per position (human readable part: the other lower-case alphanumerics, 1 character at a time); the separator is never substituted']
-sys.exit(run.finish(rule='(1) descriptors: 16 one-key wrappers x 66 key expressions (hex/WIF compressed+uncompressed, xpub/xprv x 9 paths incl. hardened, ranged, multipath; x 3 origins) + 11 two-key templates x 90 ordered key pairs + 6 three-key templates x 120 ordered triples + 34 key-less/malformed strings; '
+sys.exit(run.finish(rule='(1) descriptors: 16 one-key wrappers x 72 key expressions (hex/WIF compressed+uncompressed, xpub/xprv x 10 paths incl. hardened, ranged, multipath; x 3 origins) + 11 two-key templates x 90 ordered key pairs + 6 three-key templates x 120 ordered triples + 34 key-less/malformed strings; '
                          'every accepted descriptor: ToString/ToPrivateString/ToNormalizedString reparse fixpoints and equal Expand results at positions {0,1,2^31-1} (original vs public vs private vs normalized), pk/pkh/wpkh scripts vs BIP32 reference, all canonical checksums vs reference; '
                          '(2) checksum: every single substitution (95-symbol alphabet) and adjacent transposition of 8 (quick) / 20 (thorough) canonical descriptors; (3) BIP32: all paths of depth <= 3 (quick) / 4 (thorough) over {0,1,2^31-1,2^31,2^32-1} from the 3 BIP32 vector seeds vs extendedkey.py, public vs private derivation; '
                          '(4) 45 destinations + WIF/xprv/xpub x 5 networks: encodings vs reference, decode under all 5 parameter sets; (5) bech32(m): all 1- and 2-substitutions of 10 strings (14..90 chars), all 3-substitutions of a 20-char string, all 4-substitutions of a 10-char (quick) / 13-char (thorough) string; '
